@@ -158,10 +158,117 @@ theorem facts_agree_backend :
 theorem facts_agree_guard_tables :
     Generated.ReadOnly.iso9660Guards.length = 12 ∧ Generated.ReadOnly.squashfsGuards.length = 12 := by decide
 
+
+/-! ### every way of obtaining read-only access (the constructor table) -/
+
+/-- the constructor table regenerated from backend/file/file.go and diskfs.go -/
+def genRows : List CtorRow := decodeRows Generated.ReadOnly.ctorTable
+def roMode : Nat := Generated.ReadOnly.openModeReadOnly
+
+/-- the regenerated table has exactly one row for every constructor x flag combination the library
+    offers (diskfs.Open x the three OpenModeOption values and a value that is none of them,
+    file.OpenFromPath x readOnly, file.OpenFromPathWithExclusive x readOnly x exclusive,
+    file.New x readOnly, file.CreateFromPath), nothing was unevaluable, and no other exported
+    function of backend/file or diskfs.go hands out a backend / a Disk -/
+theorem facts_agree_ctor_table :
+    genRows.map CtorRow.key =
+      [(0, Generated.ReadOnly.openModeReadOnly, 0), (0, Generated.ReadOnly.openModeReadWriteExclusive, 0),
+       (0, Generated.ReadOnly.openModeReadWrite, 0), (0, 7, 0),
+       (1, 0, 0), (1, 1, 0), (2, 0, 0), (2, 0, 1), (2, 1, 0), (2, 1, 1), (3, 0, 0), (3, 1, 0), (4, 0, 0)] ∧
+    Generated.ReadOnly.ctorTable.length = 6 * 13 ∧
+    Generated.ReadOnly.fileCtorNames = ["CreateFromPath", "New", "OpenFromPath", "OpenFromPathWithExclusive"] ∧
+    Generated.ReadOnly.diskCtorNames = ["Create", "Open", "OpenBackend"] ∧
+    Generated.ReadOnly.subWritablePropagatesRefusal = true ∧
+    Generated.ReadOnly.fileWritableReadsOnlyReadOnlyField = true := by decide
+
+/-- every constructor asked for read-only access either refuses or yields a backend whose Writable()
+    fails, and when it opens the file itself it opens it O_RDONLY (so the OS would refuse as well).
+    `decide` ranges over the whole regenerated table, which is the quantifier. -/
+theorem ctor_ro_refuses :
+    ∀ r ∈ genRows, r.askedRO roMode = true →
+      (∀ s, r.backend = some s → s.writable = none) ∧ (r.opened = 1 → accMode r.flags = 0) := by decide
+
+/-- the converse (the table is not trivially all-refusing): a constructor asked for write access that
+    yields a backend yields a writable one, opened O_RDWR when it opens the file itself -/
+theorem ctor_rw_writable :
+    ∀ r ∈ genRows, r.askedRO roMode = false → r.opened ≠ 2 →
+      r.roField = false ∧ (r.opened = 1 → accMode r.flags = 2) := by decide
+
+/-- an OpenModeOption value outside the table yields no disk at all -/
+theorem ctor_unknown_mode_refused : (findRow genRows 0 7 0).map CtorRow.backend = some none := by decide
+
+/-- backend.Sub, nested to any depth at any offsets, is writable exactly when the innermost storage is -/
+theorem subs_writable (l : List (Nat × Nat)) (u : Stor) : (subs l u).writable = u.writable := by
+  induction l generalizing u with
+  | nil => rfl
+  | cons x xs ih =>
+    obtain ⟨o, n⟩ := x
+    simp only [subs]
+    rw [ih]
+    simp only [Stor.writable]
+    cases u.writable <;> rfl
+
+/-- a storage whose Writable() fails is a read-only storage of the decision model -/
+theorem toStorage_ro (s : Stor) (h : s.writable = none) : s.toStorage.ro = true := by
+  simp [Stor.toStorage, h]
+
+/-- hence: through whichever constructor read-only access was asked for, directly or under any nesting of
+    backend.Sub, every history of calls — any entry points, any interleaving, any payloads — leaves
+    every byte of the image as it was -/
+theorem ctor_ro_history (r : CtorRow) (hr : r ∈ genRows) (hask : r.askedRO roMode = true) (s : Stor)
+    (hs : r.backend = some s) (l : List (Nat × Nat)) (c : Cfg) (img : Dev) (calls : List Call) :
+    run c (subs l s).toStorage img calls = img := by
+  have hw : s.writable = none := (ctor_ro_refuses r hr hask).1 s hs
+  exact ro_history c _ (toStorage_ro _ (by rw [subs_writable]; exact hw)) img calls
+
+/-- the same for any backend whose Writable() fails (not one of ours) and for a rawBackend over a handle
+    that is no io.WriterAt (whatever its readOnly flag), under any nesting of backend.Sub -/
+theorem refusing_history (l : List (Nat × Nat)) (c : Cfg) (img : Dev) (calls : List Call) :
+    run c (subs l .refusing).toStorage img calls = img ∧
+    ∀ ro, run c (subs l (.rawNoWriter ro)).toStorage img calls = img :=
+  ⟨ro_history c _ (toStorage_ro _ (by rw [subs_writable]; rfl)) img calls,
+   fun _ => ro_history c _ (toStorage_ro _ (by rw [subs_writable]; rfl)) img calls⟩
+
+/-- and every mutating call errors there (repaired tree; the guard-table side condition as above) -/
+theorem ctor_ro_mutators_error (r : CtorRow) (hr : r ∈ genRows) (hask : r.askedRO roMode = true) (s : Stor)
+    (hs : r.backend = some s) (l : List (Nat × Nat)) (c : Cfg)
+    (h1 : c.fatOpenChecks = true) (h2 : c.ext4OpenChecks = true)
+    (h3 : c.isoCreateChecks = true) (h4 : c.sqfsCreateChecks = true)
+    (k : FsKind) (fin : Bool) (ss : Nat) (op : Op) (payload : List Wr)
+    (hm : op.isMutator = true) (hfin : k.staged = true → fin = true)
+    (hg : ∀ m, guardClass (c.guards k) m ≠ 0 ∨ k.staged = false) :
+    (step c (subs l s).toStorage k fin ss op payload).out = .err := by
+  have hw : s.writable = none := (ctor_ro_refuses r hr hask).1 s hs
+  exact ro_mutators_error_fixed c h1 h2 h3 h4 _ (toStorage_ro _ (by rw [subs_writable]; exact hw))
+    k fin ss op payload hm hfin hg
+
+/-- diskfs.OpenBackend with WithOpenMode(ReadOnly): once the function acts on the option, the disk's storage
+    refuses whatever storage was handed in, under any nesting of backend.Sub, and every history leaves the
+    image unchanged ... -/
+theorem openbackend_ro (inner : Stor) (l : List (Nat × Nat)) (c : Cfg) (img : Dev) (calls : List Call) :
+    (openBackend true true inner).writable = none ∧
+    run c (subs l (openBackend true true inner)).toStorage img calls = img :=
+  ⟨rfl, ro_history c _ (toStorage_ro _ (by rw [subs_writable]; rfl)) img calls⟩
+
+/-- ... without a mode option (or with a writing one) the storage is the caller's, as it is -/
+theorem openbackend_keeps (honours : Bool) (inner : Stor) : openBackend honours false inner = inner := by
+  simp [openBackend]
+
+/-- as found the option is parsed and ignored: a writable storage stays writable on a disk opened read-only -/
+theorem cex_openbackend_ignores_mode : (openBackend false true (.raw false)).writable = some {} := by decide
+
+/-- the table as it would be after a change that opens O_RDWR and derives the readOnly field from the
+    open mode for (readOnly = true, exclusive = false): the theorem's statement is false for it -/
+example : ¬ (∀ r ∈ decodeRows [2, 1, 0, 1, 2, 0], r.askedRO 0 = true →
+    (∀ s, r.backend = some s → s.writable = none) ∧ (r.opened = 1 → accMode r.flags = 0)) := by decide
+
 /-! non-vacuity -/
 example : (step genCfg ⟨false⟩ .fat12 false 512 .mkdir [⟨7, [1, 2]⟩]).writes = [⟨7, [1, 2]⟩] := by decide
 example : (step genCfg ⟨true⟩ .fat12 false 512 .mkdir [⟨7, [1, 2]⟩]).out = .err := by decide
 example : (step genCfg ⟨false⟩ .squashfs true 4096 .remove [⟨7, [1, 2]⟩]).out = .err := by decide
 example : trigger { genCfg with fatOpenChecks := false } .fat16 false 512 .openRdwr = true := by decide
+example : ∃ r ∈ genRows, r.askedRO roMode = true ∧ r.backend = some (.raw true) := by decide
+example : (subs [(0, 8), (512, 4)] (.raw false)).writable = some {} := by decide
+example : (subs [(0, 8), (512, 4)] (.raw true)).writable = none := by decide
 
 end Diskfs.ReadOnly.C11
